@@ -16,7 +16,8 @@ let handle (toks : string list) : string =
            let tr = parse_trace tbl obs in
            (match chk_C08 c (zs base) tr with
             | Some cl -> "chk " ^ string_of_sclause cl
-            | None -> if model <> impl then "diff sliding_trace model=" ^ model
+            | None -> if quiet_violated c.sooo (zs base) tr then "chk watermark_not_redelivered" ^ (if model <> impl then " (and model differs)" else "") else
+                      if model <> impl then "diff sliding_trace model=" ^ model
                       else if List.exists (function EvBatch b -> List.length b.b_rows >= 2 | _ -> false) tr then "ok nt" else "ok")
        | _ -> "bad line")
   | "Q" :: rest -> Winsql.handle_q rest
